@@ -1266,11 +1266,8 @@ func main() {
 		}
 	}
 	const staged = true
-	// modes 3 and 4 (rebuild of the same objects after an edit)
-	lastMode := 2
-	if os.Getenv("C13_REBUILD") != "" {
-		lastMode = 4
-	}
+	// modes 1, 2 (staged / cloned) and 3, 4 (rebuild of the same objects after an edit)
+	const lastMode = 4
 	for _, spec := range handSpecs() {
 		h.checkSpec(spec, run.Rand.Fork(), run.Scale(6, 30), false)
 		run.Count("hand-written-schema")
